@@ -517,6 +517,37 @@ class Chan(Engine):
                 t2 = 'raised %s' % type(e).__name__
             ctx.check(t2 == want, 'C11.codec', 'address of a %d-byte program handed over as a %s is %r, BIP173 gives %r' % (len(prog), flav, t2, want), ver=ver, plen=len(prog), flavour=flav)
         ctx.probe('program-flavours')
+        # --- the caller's data source fails in the middle of an encode: after k items it raises an exception of its
+        # own, or delivers something that is not a byte value.  What that call does is the caller's business; the
+        # operations that FOLLOW it (same thread, same process) must be what they always are.
+        class SourceFailed(Exception):
+            pass
+
+        def failing(k, bad):
+            for b in prog[:k]:
+                yield b
+            if bad is SourceFailed:
+                raise SourceFailed()
+            yield bad
+            for b in prog[k + 1:]:
+                yield b
+        for k in range(len(prog) + 1):
+            for bad in (SourceFailed, None, 'x', 256, -1, 2.5):
+                try:
+                    SA.encode(hrp, ver, failing(k, bad))
+                except Exception:          # noqa: BLE001 - not judged
+                    pass
+                try:
+                    t2 = SA.encode(hrp, ver, prog)
+                except Exception as e:     # noqa: BLE001
+                    t2 = 'raised %s' % type(e).__name__
+                ok = t2 == want and self._dec(hrp, want) == orig
+                ctx.check(ok, 'C11.codec', 'after an encode whose data source failed at item %d (%s), the same thread gets %r for (hrp %r, version %d, %d-byte program) and %r back from decoding %r'
+                          % (k, 'own exception' if bad is SourceFailed else 'item %r' % (bad,), t2, hrp, ver, len(prog), self._dec(hrp, want) if t2 == want else None, want),
+                          ver=ver, plen=len(prog), fault='source-failed')
+                if not ok:
+                    break
+        ctx.fault('caller-source-failed-mid-encode', (len(prog) + 1) * 6)
         ctx.check(self._dec(hrp, want) == orig, 'C11.codec', 'fault-free channel: %r does not decode to the original version and program' % want, ver=ver, plen=len(prog))
         if ver == 0 and hrp in ('bc', 'tb', 'bcrt'):
             self._cbech32(hrp, want, orig)
